@@ -365,11 +365,14 @@ def run(repo, chk):
     bad = None
     n_dec = 0
     for p, ev in cb_paths:
-        pops = [e for e in ev if e.kind in ('sub', 'silent') and e.func in ('self.pop', 'self.pop_dynamic', 'self.discard')
-                or (e.kind in ('sub', 'silent') and e.func.startswith('self.pop'))]
-        if not pops:
+        rel = gf.releasers()
+        pops = [e for e in ev if e.kind in ('sub', 'silent', 'call') and e.func.startswith('self.') and e.func[5:] in rel]
+        inline = [e for e in ev if e.kind == 'assign' and e.target == 'self.stack' and src(e.value).endswith('.prev')]
+        if not pops and not inline:
             continue
-        emits = any(e.kind == 'sub' for e in pops)
+        # (a releaser that was spliced into the path shows as its own events, tagged with their origin)
+        emits = any(e.kind == 'sub' for e in pops) or any(
+            e.kind in ('sub', 'emit') and any(o.replace('self.', '') in rel for o in e.origin) for e in ev)
         for exited in (True, False):
             for M in D.all_modes:
                 blk = D.stub(M)
